@@ -77,6 +77,59 @@ fn k_sha1_blocks_input() {
     kani::cover!(true, "reachable");
 }
 
+/// the same contract for any (buffered, input) shape: PRE bytes already buffered (PRE < 64), an input of exactly N bytes
+fn blocks_input_shape<const PRE: usize, const N: usize>() {
+    let pre: [u8; PRE] = kani::any();
+    let inp: [u8; N] = kani::any();
+    let mut blk = [0u8; 64];
+    let mut k = 0; while k < PRE { blk[k] = pre[k]; k += 1; }
+    let mut b = Blocks { len: PRE as u32, block: blk };
+    unsafe { NFED = 0; }
+    b.input(&inp, |x| unsafe { if NFED < 3 { FED[NFED] = *x; } NFED += 1; });
+    let total = PRE + N;
+    assert!(unsafe { NFED } == total / 64, "one closure call per whole 64-byte block of (buffered | input)");
+    assert!(b.len as usize == total % 64, "the remainder stays buffered");
+    if total > 0 {
+        let i: usize = kani::any();
+        kani::assume(i < total);
+        let src = if i < PRE { pre[i] } else { inp[i - PRE] };
+        if i < (total / 64) * 64 { assert!(unsafe { FED[i / 64][i % 64] } == src, "block bytes in stream order"); }
+        else { assert!(b.block[i - (total / 64) * 64] == src, "remainder buffered in order"); }
+    }
+    kani::cover!(true, "reachable");
+}
+macro_rules! blocks_input_harness {
+    ($name:ident, $pre:expr, $n:expr) => {
+        #[kani::proof]
+        #[kani::unwind(70)]
+        fn $name() { blocks_input_shape::<$pre, $n>(); }
+    };
+}
+//@unit name=k_sha1_blocks_input_0_0 props=C10,C12 label=S tier=quick fn=sha1::Blocks::input bound="nothing buffered, empty input"
+//@desc block feeding contract (closure calls = whole blocks in stream order, remainder buffered) for this shape, all contents
+blocks_input_harness!(k_sha1_blocks_input_0_0, 0, 0);
+//@unit name=k_sha1_blocks_input_0_63 props=C10,C12 label=S tier=quick fn=sha1::Blocks::input bound="nothing buffered, 63-byte input"
+//@desc as above: no block yet, 63 bytes buffered
+blocks_input_harness!(k_sha1_blocks_input_0_63, 0, 63);
+//@unit name=k_sha1_blocks_input_0_64 props=C10,C12 label=S tier=quick fn=sha1::Blocks::input bound="nothing buffered, 64-byte input"
+//@desc as above: exactly one block, nothing buffered
+blocks_input_harness!(k_sha1_blocks_input_0_64, 0, 64);
+//@unit name=k_sha1_blocks_input_0_65 props=C10,C12 label=S tier=quick fn=sha1::Blocks::input bound="nothing buffered, 65-byte input"
+//@desc as above: one block, one byte buffered (the tail, not the head, of the message)
+blocks_input_harness!(k_sha1_blocks_input_0_65, 0, 65);
+//@unit name=k_sha1_blocks_input_1_63 props=C10,C12 label=S tier=quick fn=sha1::Blocks::input bound="1 byte buffered, 63-byte input"
+//@desc as above: the buffered byte and the input complete exactly one block
+blocks_input_harness!(k_sha1_blocks_input_1_63, 1, 63);
+//@unit name=k_sha1_blocks_input_63_1 props=C10,C12 label=S tier=quick fn=sha1::Blocks::input bound="63 bytes buffered, 1-byte input"
+//@desc as above: one input byte completes the buffered block
+blocks_input_harness!(k_sha1_blocks_input_63_1, 63, 1);
+//@unit name=k_sha1_blocks_input_63_66 props=C10,C12 label=S tier=quick fn=sha1::Blocks::input bound="63 bytes buffered, 66-byte input"
+//@desc as above: two blocks, one byte buffered
+blocks_input_harness!(k_sha1_blocks_input_63_66, 63, 66);
+//@unit name=k_sha1_blocks_input_10_20 props=C10,C12 label=S tier=quick fn=sha1::Blocks::input bound="10 bytes buffered, 20-byte input"
+//@desc as above: no block completed, 30 bytes buffered
+blocks_input_harness!(k_sha1_blocks_input_10_20, 10, 20);
+
 // ---------------- FIPS 180-4 SHA-1 compression function, textbook form (independent of the 4-lane code) ----------------
 fn spec_f(t: usize, b: u32, c: u32, d: u32) -> u32 {
     if t < 20 { (b & c) | (!b & d) } else if t < 40 { b ^ c ^ d } else if t < 60 { (b & c) | (b & d) | (c & d) } else { b ^ c ^ d }
